@@ -86,6 +86,9 @@ def isect(a1, a2, b1, b2):
 
 class C18(Check):
     pid = "C18"
+    level_text = (
+        "Explicit-state BFS to fixpoint over the real OverlapResult operations from every lookup of a bounded scope; the invariant is evaluated in every reachable state and the source scaffold must stay untouched."
+    )
     technique = (
         "explicit-state BFS to fixpoint over the real OverlapResult operations from every lookup result of a "
         "bounded scaffold x bait scope; invariant checked in every reachable state"
